@@ -1409,7 +1409,7 @@ def cases(rng, tier):
     quick = tier == "quick"
     plan = [("aslice", 260), ("slice", 300), ("slice-overhang", 120), ("feature", 260), ("revcomp", 120), ("copy", 100), ("malformed", 140),
             ("history", 200)]
-    mult = 3 if quick else 40
+    mult = 2 if quick else 40
     gens = {"aslice": _gen_aslice, "slice": _gen_slice, "slice-overhang": lambda r: _gen_slice(r, overhang=True), "feature": _gen_feature,
             "revcomp": _gen_revcomp, "copy": _gen_copy, "malformed": _gen_malformed, "history": _gen_history}
     for kind, cnt in plan:
